@@ -736,6 +736,15 @@ func c06Namespace(t *testing.T, out *vh.Out) {
 		t.Fatal("cross policy", cl)
 	}
 	xflow := false
+	idxKeys := func() map[string]bool {
+		m := map[string]bool{}
+		for _, k := range e.p.AllKeys() {
+			if strings.Contains(k, "sys/expire/token/") {
+				m[k] = true
+			}
+		}
+		return m
+	}
 	requester := func() string {
 		path, pol := "c06ns/auth/token/create", "c06pol"
 		if xflow {
@@ -801,6 +810,7 @@ func c06Namespace(t *testing.T, out *vh.Out) {
 			tok := requester()
 			c06Quiesce(e.p)
 			before := leaseKeys()
+			idxBefore := idxKeys()
 			i0, r0 := e.counts()
 			e.p.Tag(0)
 			e.p.FailNth(0, k)
@@ -809,6 +819,7 @@ func c06Namespace(t *testing.T, out *vh.Out) {
 			e.p.Untag()
 			c06Quiesce(e.p)
 			i1, r1 := e.counts()
+			idxNow := idxKeys()
 			added := 0
 			for key := range leaseKeys() {
 				if !before[key] {
@@ -834,6 +845,26 @@ func c06Namespace(t *testing.T, out *vh.Out) {
 				res += "!VIOL:" + strings.TrimPrefix(res, "bad:") + "#C06:namespace-" + flow
 			}
 			out.Op(res, "nsflow", flow, vh.I(int64(k)))
+			if cl == "ok" && k == n && resp != nil && resp.Secret != nil {
+				// where the token index entry of this secret went: the view of the root namespace or the view of c06ns
+				// (model: TokIdx.create — the view of the TOKEN's namespace)
+				where := map[string]bool{}
+				for key := range idxNow {
+					if !idxBefore[key] {
+						if strings.HasPrefix(key, pre) {
+							where["ns"] = true
+						} else {
+							where["root"] = true
+						}
+					}
+				}
+				var ws []string
+				for w := range where {
+					ws = append(ws, w)
+				}
+				sort.Strings(ws)
+				out.Op(strings.Join(ws, "+"), "tokidx", flow)
+			}
 		}
 	}
 	_ = c.Shutdown()
